@@ -1,12 +1,454 @@
-//! C08 - not built yet.
-use crate::run::Ctx;
-use serde_json::Value;
+//! C08 - Duration round/total/compare relative to a PlainDate equal add-then-remeasure.
 
-pub fn run(_ctx: &mut Ctx) {
-    eprintln!("property C08 has no check yet");
-    std::process::exit(2);
+use crate::chk;
+use crate::conv::*;
+use crate::gen;
+use crate::refm::civil::*;
+use crate::refm::dateadd::*;
+use crate::refm::dur::*;
+use crate::refm::exact::{ratio_to_f64, ulp_distance};
+use crate::refm::relround::*;
+use crate::refm::round::Mode;
+use crate::run::*;
+use crate::tzp::TableProvider;
+use proptest::prelude::*;
+use serde::{Deserialize, Serialize};
+use serde_json::Value;
+use temporal_rs::error::ErrorKind;
+use temporal_rs::options::{RelativeTo, Unit};
+
+#[derive(Serialize, Deserialize, Debug, Clone, Copy, PartialEq, Eq)]
+pub enum LargestOpt {
+    Absent,
+    Auto,
+    Unit(U),
 }
 
-pub fn replay(_ctx: &mut Ctx, _sub: &str, _case: &Value) -> bool {
-    false
+#[derive(Serialize, Deserialize, Debug, Clone)]
+pub struct RoundCase {
+    pub r: i64,
+    pub d: Dur,
+    pub largest: LargestOpt,
+    pub smallest: U,
+    pub inc: u32,
+    pub mode: Mode,
+}
+pub struct RoundSub;
+
+fn kind_of(e: RErr) -> ErrorKind {
+    match e {
+        RErr::Range => ErrorKind::Range,
+        RErr::Type => ErrorKind::Type,
+    }
+}
+
+impl SubCheck for RoundSub {
+    type Case = RoundCase;
+    fn name(&self) -> &'static str {
+        "round"
+    }
+    fn eval(&self, c: &RoundCase) -> Outcome {
+        let existing = c.d.largest_unit();
+        let largest = match c.largest {
+            LargestOpt::Unit(u) => u,
+            _ => existing.larger_of(c.smallest),
+        };
+        let ymd = Ymd::from_n(c.r);
+        let want = duration_round(c.r, &c.d, largest, c.inc as i128, c.smallest, c.mode);
+        let mut o = Outcome::pass();
+        // would bubbling be needed? compare with the un-bubbled nudge: detect by re-running with largest = smallest
+        let month_end = ymd.d >= 29;
+        let both_md = c.d.f[1] != 0 && c.d.f[3] != 0;
+        let neg = c.d.sign() < 0;
+        let bubbled = match (&want, duration_round(c.r, &c.d, largest, 1, U::Nanosecond, Mode::Trunc)) {
+            (Ok(w), Ok(exact)) => {
+                // a unit larger than smallest changed
+                (0..c.smallest.idx()).any(|i| w.f[i] != exact.f[i])
+            }
+            _ => false,
+        };
+        o = o.nontrivial(bubbled || month_end || both_md || neg);
+        if bubbled {
+            o = o.class("carries-into-larger-unit");
+        }
+        if month_end {
+            o = o.class("reference-day>=29");
+        }
+        if both_md {
+            o = o.class("months+days");
+        }
+        if neg {
+            o = o.class("negative");
+        }
+        o = o.class(if c.smallest.is_calendar() { "smallest-calendar-unit" } else if c.smallest == U::Day { "smallest-day" } else { "smallest-time-unit" });
+        // Temporal later added a rejection for (increment > 1, date smallest unit, largest != smallest): unjudged
+        if c.inc > 1 && c.smallest.is_date() && largest != c.smallest {
+            o.unjudged = true;
+            o = o.class("unjudged:inc>1-date-unit-largest!=smallest");
+        }
+        let date = plain_date(ymd).expect("valid date");
+        let d = match duration_from_dur(&c.d) {
+            Ok(d) => d,
+            Err(e) => return o.fail("C08/round/construct", "valid", err_str(&e)),
+        };
+        let prov = TableProvider::utc_only();
+        let lopt = match c.largest {
+            LargestOpt::Absent => None,
+            LargestOpt::Auto => Some(Unit::Auto),
+            LargestOpt::Unit(u) => Some(unit(u)),
+        };
+        let opts = round_options(lopt, Some(unit(c.smallest)), Some(c.inc), Some(mode(c.mode)));
+        let got = d.round_with_provider(opts, Some(RelativeTo::PlainDate(date)), &prov);
+        if o.unjudged {
+            return o;
+        }
+        match (want, got) {
+            (Ok(w), Ok(g)) => {
+                let wf = w.to_f64s();
+                let gf = duration_fields(&g);
+                if !fields_eq(&gf, &wf) {
+                    return o.fail("C08/round/mismatch", format!("{wf:?}"), format!("{gf:?}"));
+                }
+                // oracle-free invariants
+                let s = if neg { -1.0 } else { 1.0 };
+                chk!(o, gf.iter().all(|v| *v == 0.0 || v.signum() == s), "C08/round/not-sign-uniform", s, gf);
+                chk!(o, (c.smallest.idx() + 1..10).all(|i| gf[i] == 0.0), "C08/round/residue-below-smallest", "zeros", gf);
+                if gf[c.smallest.idx()].abs() < 9007199254740992.0 {
+                    chk!(o, (gf[c.smallest.idx()] as i128) % (c.inc as i128) == 0, "C08/round/not-a-multiple-of-increment", c.inc, gf);
+                }
+            }
+            (Err(we), Err(e)) => chk!(o, e.kind() == kind_of(we), "C08/round/error-kind", rerr_name(we), err_str(&e)),
+            (Ok(w), Err(e)) => o = o.fail("C08/round/unexpected-error", format!("{:?}", w.to_f64s()), err_str(&e)),
+            (Err(we), Ok(g)) => o = o.fail("C08/round/accepted", format!("{}Error", rerr_name(we)), format!("{:?}", duration_fields(&g))),
+        }
+        o
+    }
+}
+
+#[derive(Serialize, Deserialize, Debug, Clone)]
+pub struct TotalCase {
+    pub r: i64,
+    pub d: Dur,
+    pub unit: U,
+}
+pub struct TotalSub;
+impl SubCheck for TotalSub {
+    type Case = TotalCase;
+    fn name(&self) -> &'static str {
+        "total"
+    }
+    fn eval(&self, c: &TotalCase) -> Outcome {
+        let ymd = Ymd::from_n(c.r);
+        let want = duration_total(c.r, &c.d, c.unit);
+        let mut o = Outcome::pass().nontrivial(c.d.sign() < 0 || ymd.d >= 29 || (c.d.f[1] != 0 && c.d.f[3] != 0) || c.unit.is_calendar());
+        o = o.class(if c.unit.is_calendar() { "calendar-unit" } else { "fixed-length-unit" });
+        if c.d.sign() < 0 {
+            o = o.class("negative");
+        }
+        let date = plain_date(ymd).expect("valid date");
+        let d = match duration_from_dur(&c.d) {
+            Ok(d) => d,
+            Err(e) => return o.fail("C08/total/construct", "valid", err_str(&e)),
+        };
+        let prov = TableProvider::utc_only();
+        let got = d.total_with_provider(unit(c.unit), Some(RelativeTo::PlainDate(date)), &prov);
+        match (want, got) {
+            (Ok((n, den)), Ok(g)) => {
+                let w = ratio_to_f64(n, den);
+                let ulps = ulp_distance(g.as_inner(), w);
+                if ulps == 1 {
+                    o = o.class("1ulp-off");
+                }
+                if ulps > 1 {
+                    // classify: small float noise vs a wrong answer
+                    let rel = ((g.as_inner() - w) / if w == 0.0 { 1.0 } else { w }).abs();
+                    let sig = if rel < 1e-13 { "C08/total/float-noise>1ulp" } else { "C08/total/mismatch" };
+                    return o.fail(sig, format!("{w:e}"), format!("{:e} ({} ulps)", g.as_inner(), ulps));
+                }
+            }
+            (Err(we), Err(e)) => chk!(o, e.kind() == kind_of(we), "C08/total/error-kind", rerr_name(we), err_str(&e)),
+            (Ok((n, den)), Err(e)) => o = o.fail("C08/total/unexpected-error", format!("{:e}", ratio_to_f64(n, den)), err_str(&e)),
+            (Err(we), Ok(g)) => o = o.fail("C08/total/accepted", format!("{}Error", rerr_name(we)), format!("{:e}", g.as_inner())),
+        }
+        o
+    }
+}
+
+#[derive(Serialize, Deserialize, Debug, Clone)]
+pub struct CompareCase {
+    pub r: i64,
+    pub a: Dur,
+    pub b: Dur,
+}
+pub struct CompareSub;
+impl SubCheck for CompareSub {
+    type Case = CompareCase;
+    fn name(&self) -> &'static str {
+        "compare"
+    }
+    fn eval(&self, c: &CompareCase) -> Outcome {
+        let ymd = Ymd::from_n(c.r);
+        let want = duration_compare(c.r, &c.a, &c.b);
+        let cal = c.a.has_calendar() || c.b.has_calendar();
+        let mut o = Outcome::pass().nontrivial(cal);
+        if cal {
+            o = o.class("calendar-units");
+        }
+        if let Ok(std::cmp::Ordering::Equal) = want {
+            o = o.class("equal");
+        }
+        let date = plain_date(ymd).expect("valid date");
+        let (da, db) = match (duration_from_dur(&c.a), duration_from_dur(&c.b)) {
+            (Ok(x), Ok(y)) => (x, y),
+            _ => return o.fail("C08/compare/construct", "valid", "Err"),
+        };
+        let prov = TableProvider::utc_only();
+        let got = da.compare_with_provider(&db, Some(RelativeTo::PlainDate(date)), &prov);
+        match (want, got) {
+            (Ok(w), Ok(g)) => chk!(o, g == w, "C08/compare/mismatch", w, g),
+            (Err(we), Err(e)) => chk!(o, e.kind() == kind_of(we), "C08/compare/error-kind", rerr_name(we), err_str(&e)),
+            (Ok(w), Err(e)) => {
+                // identical durations short-circuit to Equal before any arithmetic: both verdicts are fine
+                o = o.fail("C08/compare/unexpected-error", format!("{w:?}"), err_str(&e));
+            }
+            (Err(we), Ok(g)) => {
+                if fields_eq(&c.a.to_f64s(), &c.b.to_f64s()) {
+                    // equal durations compare equal whatever the reference date
+                } else {
+                    o = o.fail("C08/compare/accepted", format!("{}Error", rerr_name(we)), format!("{g:?}"));
+                }
+            }
+        }
+        o
+    }
+}
+
+/// the same machinery through PlainDateTime/PlainDate until/since with rounding options
+#[derive(Serialize, Deserialize, Debug, Clone)]
+pub struct UntilCase {
+    pub a_day: i64,
+    pub a_ns: i128,
+    pub b_day: i64,
+    pub b_ns: i128,
+    pub largest: U,
+    pub smallest: U,
+    pub inc: u32,
+    pub mode: Mode,
+    pub since: bool,
+    /// use PlainDate (times ignored) instead of PlainDateTime
+    pub plain_date: bool,
+}
+pub struct UntilSub;
+impl SubCheck for UntilSub {
+    type Case = UntilCase;
+    fn name(&self) -> &'static str {
+        "until-rounded"
+    }
+    fn eval(&self, c: &UntilCase) -> Outcome {
+        let (a, b) = if c.plain_date { (Dt { day: c.a_day, ns: 0 }, Dt { day: c.b_day, ns: 0 }) } else { (Dt { day: c.a_day, ns: c.a_ns }, Dt { day: c.b_day, ns: c.b_ns }) };
+        // since: difference with the negated mode, then negated
+        let m = if c.since { c.mode.negated() } else { c.mode };
+        // DifferenceTemporalPlainDate: smallestUnit day with increment 1 is a no-op (no rounding step at all)
+        let (eff_smallest, eff_inc) = if c.plain_date && c.smallest == U::Day && c.inc == 1 { (U::Nanosecond, 1) } else { (c.smallest, c.inc as i128) };
+        let want = diff_with_rounding(a, b, c.largest, eff_inc, eff_smallest, m).map(|i| {
+            let d = to_dur(i, c.largest);
+            if c.since {
+                d.negated()
+            } else {
+                d
+            }
+        });
+        let mut o = Outcome::pass().class(if c.plain_date { "PlainDate" } else { "PlainDateTime" }).class(if c.since { "since" } else { "until" });
+        let ya = Ymd::from_n(c.a_day);
+        o = o.nontrivial(ya.d >= 29 || b.abs_ns() < a.abs_ns() || c.smallest.is_calendar());
+        if c.inc > 1 && c.smallest.is_date() && c.largest != c.smallest {
+            o.unjudged = true;
+            o = o.class("unjudged:inc>1-date-unit-largest!=smallest");
+        }
+        let st = diff_settings(Some(unit(c.largest)), Some(unit(c.smallest)), Some(c.inc), Some(mode(c.mode)));
+        let got = if c.plain_date {
+            let (pa, pb) = (plain_date(Ymd::from_n(c.a_day)).unwrap(), plain_date(Ymd::from_n(c.b_day)).unwrap());
+            if c.since {
+                pa.since(&pb, st)
+            } else {
+                pa.until(&pb, st)
+            }
+        } else {
+            let (pa, pb) = (plain_datetime(a).unwrap(), plain_datetime(b).unwrap());
+            if c.since {
+                pa.since(&pb, st)
+            } else {
+                pa.until(&pb, st)
+            }
+        };
+        if o.unjudged {
+            return o;
+        }
+        match (want, got) {
+            (Ok(w), Ok(g)) => {
+                let wf = w.to_f64s();
+                chk!(o, fields_eq(&duration_fields(&g), &wf), "C08/until-rounded/mismatch", wf, duration_fields(&g));
+            }
+            (Err(we), Err(e)) => chk!(o, e.kind() == kind_of(we), "C08/until-rounded/error-kind", rerr_name(we), err_str(&e)),
+            (Ok(w), Err(e)) => {
+                if !reported_valid(&w) && e.kind() == ErrorKind::Range {
+                    o = o.class("leaves-duration-range");
+                } else {
+                    o = o.fail("C08/until-rounded/unexpected-error", format!("{:?}", w.to_f64s()), err_str(&e));
+                }
+            }
+            (Err(we), Ok(g)) => o = o.fail("C08/until-rounded/accepted", format!("{}Error", rerr_name(we)), format!("{:?}", duration_fields(&g))),
+        }
+        o
+    }
+}
+
+// ------------------------------------------------------------------------------------------
+// generators
+
+fn mixed_dur() -> BoxedStrategy<Dur> {
+    let y = prop_oneof![5 => Just(0i128), 4 => 0i128..=3, 2 => 0i128..=40, 1 => 0i128..=10_000];
+    let mo = prop_oneof![4 => Just(0i128), 4 => 0i128..=13, 2 => 0i128..=40, 1 => 0i128..=2000];
+    let w = prop_oneof![6 => Just(0i128), 3 => 0i128..=6, 1 => 0i128..=200];
+    let d = prop_oneof![3 => Just(0i128), 4 => 0i128..=31, 2 => 0i128..=400, 1 => 0i128..=100_000];
+    let h = prop_oneof![5 => Just(0i128), 3 => 0i128..=30, 1 => 0i128..=2000];
+    let mi = prop_oneof![6 => Just(0i128), 3 => 0i128..=70];
+    let s = prop_oneof![6 => Just(0i128), 3 => 0i128..=70, 1 => 0i128..=100_000];
+    let sub = prop_oneof![6 => Just(0i128), 2 => 0i128..=999, 1 => Just(500i128), 1 => 0i128..=2_000_000];
+    (prop::bool::ANY, (y, mo, w, d), (h, mi, s, sub.clone(), sub.clone(), sub), 0u8..8)
+        .prop_map(|(neg, dd, t, tie)| {
+            let mut f = [dd.0, dd.1, dd.2, dd.3, t.0, t.1, t.2, t.3, t.4, t.5];
+            // a share of exact half-day / half-hour remainders (ties for day/hour rounding)
+            if tie == 0 {
+                f[4] = 12;
+                for x in f[5..].iter_mut() {
+                    *x = 0;
+                }
+            } else if tie == 1 {
+                f[5] = 30;
+                for x in f[6..].iter_mut() {
+                    *x = 0;
+                }
+            }
+            if neg {
+                for x in f.iter_mut() {
+                    *x = -*x;
+                }
+            }
+            Dur { f }
+        })
+        .prop_filter("valid", |d| d.valid())
+        .boxed()
+}
+
+/// (largest option, smallest, increment) admissible for Duration.round
+fn round_opts() -> BoxedStrategy<(LargestOpt, U, u32)> {
+    (prop_oneof![3 => gen::unit_in(0, 3), 2 => gen::unit_in(4, 9)], 0usize..64, 0u8..4, 0usize..64)
+        .prop_map(|(s, li, lk, ii)| {
+            // largest: any unit not smaller than smallest
+            let l = UNITS[li * (s.idx() + 1) / 64];
+            let incs: Vec<u32> = match s.max_increment() {
+                Some(m) => gen::divisors_below(m).into_iter().map(|x| x as u32).collect(),
+                None => vec![1, 1, 1, 1, 2, 3, 5, 7, 10, 12, 100],
+            };
+            let inc = incs[ii * incs.len() / 64];
+            let largest = match lk {
+                // increments > 1 on date units are only judged with largest == smallest
+                _ if inc > 1 && s.is_date() && lk != 0 => LargestOpt::Unit(s),
+                0 => LargestOpt::Absent,
+                1 => LargestOpt::Auto,
+                _ => LargestOpt::Unit(l),
+            };
+            (largest, s, inc)
+        })
+        .boxed()
+}
+
+fn ref_day() -> BoxedStrategy<i64> {
+    prop_oneof![
+        5 => (to_days(1900, 1, 1)..=to_days(2100, 12, 31)),
+        2 => ((1900i64..=2100), 1u8..=12, 0u8..=3).prop_map(|(y, m, back)| to_days(y, m, dim(y, m) - back)),
+        1 => Just(to_days(2020, 2, 29)),
+        1 => gen::day(),
+    ]
+    .boxed()
+}
+
+fn round_case() -> BoxedStrategy<RoundCase> {
+    (ref_day(), mixed_dur(), round_opts(), gen::mode()).prop_map(|(r, d, (largest, smallest, inc), mode)| RoundCase { r, d, largest, smallest, inc, mode }).boxed()
+}
+fn total_case() -> BoxedStrategy<TotalCase> {
+    (ref_day(), mixed_dur(), gen::unit_in(0, 9)).prop_map(|(r, d, unit)| TotalCase { r, d, unit }).boxed()
+}
+fn compare_case() -> BoxedStrategy<CompareCase> {
+    (ref_day(), mixed_dur(), mixed_dur(), 0u8..4)
+        .prop_map(|(r, a, b, k)| match k {
+            // the same span in another shape: months <-> days relative to r
+            0 => {
+                let later = date_add(Ymd::from_n(r), a.f[0], a.f[1], a.f[2], 0, Overflow::Constrain);
+                match later {
+                    Ok(l) => {
+                        let mut f = a.f;
+                        f[0] = 0;
+                        f[1] = 0;
+                        f[2] = 0;
+                        f[3] += (l.n() - r) as i128;
+                        let b2 = Dur { f };
+                        if b2.valid() {
+                            CompareCase { r, a, b: b2 }
+                        } else {
+                            CompareCase { r, a, b }
+                        }
+                    }
+                    Err(_) => CompareCase { r, a, b },
+                }
+            }
+            _ => CompareCase { r, a, b },
+        })
+        .boxed()
+}
+fn until_case() -> BoxedStrategy<UntilCase> {
+    (gen::day_pair(), gen::ns_of_day(), gen::ns_of_day(), round_opts(), gen::mode(), prop::bool::ANY, prop::bool::weighted(0.3))
+        .prop_map(|((a, b), a_ns, b_ns, (l, s, inc), mode, since, pd)| {
+            let mut largest = match l {
+                LargestOpt::Unit(u) => u,
+                _ => s.larger_of(U::Day),
+            };
+            let mut smallest = s;
+            if pd {
+                // PlainDate admits date units only
+                if !smallest.is_date() {
+                    smallest = U::Day;
+                }
+                if !largest.is_date() {
+                    largest = U::Day;
+                }
+                if largest.idx() > smallest.idx() {
+                    largest = smallest;
+                }
+            }
+            let inc = if smallest == s { inc } else { 1 };
+            UntilCase { a_day: a, a_ns, b_day: b, b_ns, largest, smallest, inc, mode, since, plain_date: pd }
+        })
+        .prop_filter("in range", |c| datetime_in_range(c.a_day, if c.plain_date { 43_200_000_000_000 } else { c.a_ns }) && datetime_in_range(c.b_day, if c.plain_date { 43_200_000_000_000 } else { c.b_ns }))
+        .boxed()
+}
+
+pub fn run(ctx: &mut Ctx) {
+    ctx.rule = "round: generated (reference date incl. month ends / Feb 29, valid duration mixing calendar and time units with both signs and exact half-day/half-hour ties, largest absent|auto|unit, smallest year..ns, admissible increment, 9 modes) -> Duration::round relative to the PlainDate against add-then-remeasure with exact rational progress (oracle self-tested against the test262 tables ported by the repo), plus oracle-free invariants (sign-uniform, zero residue below smallest, multiple of increment); total: every unit, against the correctly rounded exact rational (<= 1 ulp); compare: against the order of the instants the durations lead to (incl. the same span in another shape); until-rounded: the same machinery through PlainDateTime/PlainDate until/since with rounding options (since = negated mode, negated result). Cells with increment > 1, a date smallest unit and largest != smallest are unjudged (Temporal added a rejection after this snapshot). non-trivial = rounding carries into a larger unit, reference day >= 29, months and days both non-zero, negative, calendar smallest unit.".into();
+    let t = ctx.tier;
+    ctx.run_prop(&RoundSub, &round_case, t.pick(300_000, 10_000_000));
+    ctx.run_prop(&TotalSub, &total_case, t.pick(200_000, 6_000_000));
+    ctx.run_prop(&CompareSub, &compare_case, t.pick(200_000, 6_000_000));
+    ctx.run_prop(&UntilSub, &until_case, t.pick(300_000, 10_000_000));
+}
+
+pub fn replay(ctx: &mut Ctx, sub: &str, case: &Value) -> bool {
+    match sub {
+        "round" => ctx.replay_case(&RoundSub, case),
+        "total" => ctx.replay_case(&TotalSub, case),
+        "compare" => ctx.replay_case(&CompareSub, case),
+        "until-rounded" => ctx.replay_case(&UntilSub, case),
+        _ => false,
+    }
 }
